@@ -769,6 +769,65 @@ func implRead(d []byte, report bool) (rr readResult) {
 	return readResult{imps: imps, buf: buf, err: err}
 }
 
+func implReadFrom(rd io.Reader, report bool) (rr readResult) {
+	defer func() {
+		if p := recover(); p != nil {
+			rr.panicked = fmt.Sprint(p)
+		}
+	}()
+	var imps []string
+	buf, err := imports.ReadImports(rd, report, &imps)
+	return readResult{imps: imps, buf: buf, err: err}
+}
+
+// smallChunks delivers at most n bytes per Read.
+type smallChunks struct {
+	r io.Reader
+	n int
+}
+
+func (s smallChunks) Read(p []byte) (int, error) {
+	if len(p) > s.n {
+		p = p[:s.n]
+	}
+	return s.r.Read(p)
+}
+
+// chunkOracle: what ReadImports returns (imports, bytes, error kind) is a function of the input bytes, not of how
+// the io.Reader happens to deliver them (one byte at a time, half of what is asked, 511-byte pieces, data together
+// with EOF): "returns exactly the file's imports and a safe prefix ... returns only bytes read from the input".
+func chunkOracle(res *corr.Result, d []byte) {
+	res.OracleChecked["C18"]++
+	res.Distribution["read-reader-chunking-compared"]++
+	if len(d) > 4096 {
+		res.Distribution["read-input-larger-than-bufio-buffer"]++
+	}
+	for k, report := range []bool{false, true} {
+		base := implRead(d, report).line()
+		for _, v := range []struct {
+			name string
+			rd   io.Reader
+		}{
+			{"one byte per Read", iotest.OneByteReader(bytes.NewReader(d))},
+			{"half of the request per Read", iotest.HalfReader(bytes.NewReader(d))},
+			{"511 bytes per Read", smallChunks{bytes.NewReader(d), 511}},
+			{"data together with EOF", iotest.DataErrReader(bytes.NewReader(d))},
+		} {
+			if got := implReadFrom(v.rd, report).line(); got != base {
+				res.Violate("C18", fmt.Sprintf("read %s %d", corr.Hx(d), k), "ReadImports depends on how the reader delivers the bytes ("+v.name+"): "+clip(got, 120)+" instead of "+clip(base, 120), "read-depends-on-reader-chunking")
+				return
+			}
+		}
+	}
+}
+
+func clip(s string, n int) string {
+	if len(s) > n {
+		return s[:n] + "…"
+	}
+	return s
+}
+
 func (rr readResult) line() string {
 	if rr.panicked != "" {
 		return "panic"
@@ -1728,6 +1787,17 @@ func runC18(res *corr.Result, r *rand.Rand, tier, model string) int {
 	for _, s := range []string{"", "package", "package p", "package p;import", "package p\nimport(", "package p\nimport \"a", "package p\nimport `a", "package p /*", "package p //", "package p\x00", "package p\nimport \"a\\", "package p\nimport \"a\n\"", "x", "package p\nimport \"a\"\nimport", "package p\nimport . . \"a\"", "package p import \"a\"", "package pimport \"a\"", "package p;import\"a\";import`b`;import(\"c\");func"} {
 		add([]byte(s), nil, false)
 	}
+	// inputs larger than bufio's 4096-byte buffer: long // and /* */ comments before and inside the import section
+	// (valid files), and broken headers with a long tail (the whole input must come back when syntax errors are
+	// not requested) - seeded C18-m11 (comment skipped in bulk from the buffer), C18-m12 (tail read in blocks)
+	for _, n := range []int{4000, 4093, 4094, 4095, 4096, 4097, 4100, 8190, 8192, 8195, 9000} {
+		long := strings.Repeat("x", n)
+		add([]byte("package p\n// "+long+"\nimport \"a\"\nvar v = 1\n"), []string{`"a"`}, true)
+		add([]byte("package p\n// "+long+" import \"bogus\"\nimport \"a\"\nimport (\n\t\"b\" // "+long+" \"c\"\n)\nvar v = 1\n"), []string{`"a"`, `"b"`}, true)
+		add([]byte("// "+long+"\npackage p\n/* "+long+" */ import \"a\"\nfunc f() {}\n"), []string{`"a"`}, true)
+		add([]byte("package p\nimport (\n\t\"a\"\n\t!!!\n)\n// "+long+"\nvar tail = `"+long+"`\n"), nil, false)
+		add([]byte("package p\nimport \"a\" $ "+long+"\n"+long+"\n"), nil, false)
+	}
 	nvalid, nmal, tokLen := 15000, 15000, 4
 	if tier == "thorough" {
 		nvalid, nmal, tokLen = 500000, 500000, 5
@@ -1782,6 +1852,9 @@ func runC18(res *corr.Result, r *rand.Rand, tier, model string) int {
 		}
 		if readOracle(res, c.d, c.want, c.valid) {
 			nontrivial++
+		}
+		if i%16 == 5 || len(c.d) > 2048 {
+			chunkOracle(res, c.d)
 		}
 		if c.valid {
 			res.Distribution["read-generated-valid"]++
